@@ -37,8 +37,18 @@ func observe(f *icl.File) (what string, p any) {
 	}{
 		{"Validate", func() { _ = f.Validate() }},
 		{"json.Marshal", func() { _, _ = json.Marshal(f) }},
-		{"Write nl+ascii", func() { _, _, pp := realWrite(f, encCfg{}); if pp != nil { panic(pp) } }},
-		{"Write lp+ebcdic", func() { _, _, pp := realWrite(f, encCfg{true, true}); if pp != nil { panic(pp) } }},
+		{"Write nl+ascii", func() {
+			_, _, pp := realWrite(f, encCfg{})
+			if pp != nil {
+				panic(pp)
+			}
+		}},
+		{"Write lp+ebcdic", func() {
+			_, _, pp := realWrite(f, encCfg{true, true})
+			if pp != nil {
+				panic(pp)
+			}
+		}},
 		{"Create", func() { _ = f.Create() }},
 		{"CashLetter.Create", func() {
 			for i := range f.CashLetters {
@@ -46,8 +56,18 @@ func observe(f *icl.File) (what string, p any) {
 			}
 		}},
 		{"Create again", func() { _ = f.Create() }},
-		{"Write lp+ascii after Create", func() { _, _, pp := realWrite(f, encCfg{true, false}); if pp != nil { panic(pp) } }},
-		{"Write nl+ebcdic after Create", func() { _, _, pp := realWrite(f, encCfg{false, true}); if pp != nil { panic(pp) } }},
+		{"Write lp+ascii after Create", func() {
+			_, _, pp := realWrite(f, encCfg{true, false})
+			if pp != nil {
+				panic(pp)
+			}
+		}},
+		{"Write nl+ebcdic after Create", func() {
+			_, _, pp := realWrite(f, encCfg{false, true})
+			if pp != nil {
+				panic(pp)
+			}
+		}},
 	}
 	for _, s := range steps {
 		pp, to := guarded(s.fn)
@@ -192,6 +212,26 @@ func jsonMutations(doc any) []struct {
 				}
 				return cur, true
 			}},
+			// arrays whose lengths other arrays are expected to match (image views, addenda): one element
+			// fewer / one more
+			{"drop-first", func(cur any) (any, bool) {
+				if a, ok := cur.([]any); ok && len(a) > 0 {
+					return append([]any{}, a[1:]...), true
+				}
+				return cur, true
+			}},
+			{"drop-last", func(cur any) (any, bool) {
+				if a, ok := cur.([]any); ok && len(a) > 0 {
+					return append([]any{}, a[:len(a)-1]...), true
+				}
+				return cur, true
+			}},
+			{"repeat-last", func(cur any) (any, bool) {
+				if a, ok := cur.([]any); ok && len(a) > 0 {
+					return append(append([]any{}, a...), a[len(a)-1]), true
+				}
+				return cur, true
+			}},
 		}
 		for _, m := range muts {
 			c := clone()
@@ -209,7 +249,7 @@ func jsonMutations(doc any) []struct {
 func runC05(cfg *config) *Report {
 	rep := newReport("C05", cfg.tier, cfg.seed)
 	r := newRng(cfg.seed + 5000)
-	rep.Rule = "reader: every record of generated files cut or blank-padded to every length 0..len+3, with lying embedded length fields and lying length prefixes, multi-byte and invalid UTF-8 text, random bytes, the repository's crasher corpus, x the four reader option sets; JSON: a full generated document with every position (first two elements of each array) set to null / removed / given the wrong type / [null] / [{},null] / {}; every returned file (also the partial one returned with an error) is validated, marshalled, written in the four encodings and built, all under recover and a 5 s bound; allocation per read bounded by 64*(input+buffer)+4 MiB; reader outcomes also compared with the Lean model; non-trivial = input is not a valid file; distinct by input bytes"
+	rep.Rule = "reader: every record of generated files cut or blank-padded to every length 0..len+3, with lying embedded length fields and lying length prefixes, multi-byte and invalid UTF-8 text, random bytes, the repository's crasher corpus, x the four reader option sets; JSON: a full generated document with every position (first two elements of each array) set to null / removed / given the wrong type / [null] / [{},null] / {} / one array element dropped or repeated; every returned file (also the partial one returned with an error) is validated, marshalled, written in the four encodings and built, all under recover and a 5 s bound; allocation per read bounded by 64*(input+buffer)+4 MiB; reader outcomes also compared with the Lean model; non-trivial = input is not a valid file; distinct by input bytes"
 	now := today()
 	type rcase struct {
 		in   []byte
@@ -334,6 +374,34 @@ func runC05(cfg *config) *Report {
 			}
 		}
 		fi++
+		// the JSON document: its first item carries two complete image views, so that the arrays whose
+		// lengths must agree (detail / data / analysis) have a length worth disagreeing about
+		for _, cl := range f.CashLetters {
+			for _, bd := range cl.Bundles {
+				if len(bd.Checks) > 0 {
+					cd := bd.Checks[0]
+					for len(cd.ImageViewDetail) < 2 || len(cd.ImageViewData) < len(cd.ImageViewDetail) || len(cd.ImageViewAnalysis) < len(cd.ImageViewDetail) {
+						if len(cd.ImageViewData) >= len(cd.ImageViewDetail) && len(cd.ImageViewAnalysis) >= len(cd.ImageViewDetail) {
+							cd.AddImageViewDetail(baseImageViewDetail())
+						}
+						if len(cd.ImageViewData) < len(cd.ImageViewDetail) {
+							cd.AddImageViewData(mkIVData(r, genOpts{}))
+						}
+						if len(cd.ImageViewAnalysis) < len(cd.ImageViewDetail) {
+							cd.AddImageViewAnalysis(baseImageViewAnalysis())
+						}
+					}
+				}
+				if len(bd.Returns) > 0 {
+					rd := bd.Returns[0]
+					for len(rd.ImageViewDetail) < 2 {
+						rd.AddImageViewDetail(baseImageViewDetail())
+						rd.AddImageViewData(mkIVData(r, genOpts{}))
+						rd.AddImageViewAnalysis(baseImageViewAnalysis())
+					}
+				}
+			}
+		}
 		b, _ := json.Marshal(f)
 		var doc any
 		json.Unmarshal(b, &doc)
